@@ -15,7 +15,7 @@ from capi import Buf, Prefs, COpts
 from vlib import Oracle, build_lib, hx, md5
 
 ORACLES = ["framed"]
-THEOREMS = ["C19_reset_restores_invariant", "C19_frame_end_is_reset", "C19_stops_at_frame_end", "C19_getFrameInfo",
+THEOREMS = ["C19_reset_restores_invariant", "C19_frame_end_is_reset", "C19_reset_is_fresh", "C19_frame_end_is_fresh", "C19_stops_at_frame_end", "C19_getFrameInfo",
             "C19_getFrameInfo_error_unchanged", "C19_cctx_begin_after_any_history"]
 CORRESPONDENCE = ["FrameD model == LZ4F_decompress/_usingDict/getFrameInfo/reset on reused contexts: per call (consumed, produced, bytes, return value, private dctx fields)",
                   "FrameCtx.cbegin model == (lz4CtxAlloc, lz4CtxType, cStage) of the real LZ4F_cctx after every LZ4F_compressBegin"]
